@@ -34,7 +34,7 @@ def gen_site(rng, rich, opts):
     site = {"kind": kind, "placement": rng.choice(opts.get("placements", ["assert", "assert", "helper", "module", "loop"]))}
     noisy = lambda e: valgen.render_noisy(rng, e, p=opts.get("p_noncanon", 0.3), parens=opts.get("parens", False), comments=opts.get("comments", True))  # noqa
     if kind == "eq":
-        new = valgen.gen_value(rng, 0, rich=rich, maxdepth=opts.get("maxdepth", 3))
+        new = valgen.gen_value(rng, 0, rich=rich, maxdepth=opts.get("maxdepth", 3), floats=opts.get("floats", False))
         r = rng.random()
         if missing:
             old = None
